@@ -456,6 +456,22 @@ class _State:
                 porig[params[0]] = self.origin(recv)
             elif has_self:
                 porig[params[0]] = FRESH  # constructor: the new object
+            # **self.__dict__ / **alg.__dict__: every parameter not bound otherwise receives a field of that object
+            for e in b.get("**", []):
+                if isinstance(e, ast.Attribute) and e.attr == "__dict__":
+                    base_o = flat(self.origin(e.value))
+                    allp = callee.params + [a.arg for a in callee.node.args.kwonlyargs]
+                    for p in allp:
+                        if p in porig or (has_self and p == params[0]):
+                            continue
+                        fo = set()
+                        for o in base_o:
+                            if o[0] == "param" and o[1] == "self":
+                                fo.add(("self", p))
+                            elif o[0] in ("param", "self", "global"):
+                                fo.add(("field", f"{o[1]}.{p}"))
+                        if fo:
+                            porig[p] = frozenset(fo)
             if summ is None:
                 ret.add(("unknown", f"recursive {callee.short}"))
                 continue
@@ -562,6 +578,9 @@ class _State:
                 self.res.param_writes.setdefault(o[1], []).append((why, self.idx.loc(self.fi.module, node)))
         elif o[0] == "self":
             self.res.self_writes.setdefault(o[1], []).append((why, self.idx.loc(self.fi.module, node)))
+        elif o[0] == "field":
+            base = o[1].split(".", 1)[0]
+            self.res.param_writes.setdefault(base, []).append((why + f" (field {o[1]})", self.idx.loc(self.fi.module, node)))
 
     # ---- statements
     def block(self, stmts):
